@@ -1,7 +1,8 @@
 (** C15 -- Concurrent requests are isolated and get unique message IDs (model part; freedom from Go data races and the
     distinctness of random UUIDs are properties of the runtime: race detector and ID multiset in the harness -- partial).
     Threads are programs over atomic storage operations (the storage contract), interleaved under an arbitrary schedule. *)
-From Saml Require Import Base.Bytes Idp.FactTypes Gen.Facts Idp.Sso Idp.Callback Idp.Logout Conc.Interleave Conc.Handlers.
+From Saml Require Import Base.Bytes Idp.FactTypes Gen.Facts Idp.Sso Idp.Callback Idp.AttrQuery Idp.Logout Conc.Interleave Conc.Handlers
+  Proofs.SsoAccept Proofs.SsoLocal Proofs.AttrLocal.
 From Coq Require Import List. Import ListNotations.
 
 (** every schedule, any number of threads that only read: a finished thread's result is its result alone on the initial storage *)
@@ -49,6 +50,20 @@ Theorem C15_logout_local : forall e_form decode lookup1 lookup2 instant_of now e
   logout_handler e_form decode lookup2 instant_of now entity_id logout_steps = LDone s2 out2 -> out1 = out2.
 Proof. exact logout_local. Qed.
 
+(** SSO: the outcome depends on the storage only through the provider registered under the request's own Issuer (any chain) *)
+Theorem C15_sso_local : forall e_form decode lookup1 lookup2 verify_redirect verify_post instant_of now create want_signed sso_locs entity_id cert_ok,
+  (forall a i, can_req e_form decode = Some a -> a_issuer a = Some i -> lookup1 i = lookup2 i) -> forall c,
+  sso_handler e_form decode lookup1 verify_redirect verify_post instant_of now create want_signed sso_locs entity_id cert_ok c =
+  sso_handler e_form decode lookup2 verify_redirect verify_post instant_of now create want_signed sso_locs entity_id cert_ok c.
+Proof. exact sso_local. Qed.
+(** attribute query: only the provider registered under the query's Issuer and the user record of its subject (any chain) *)
+Theorem C15_attrquery_local : forall decode lookup1 lookup2 verify_sig attr_locs userinfo1 userinfo2 cert_ok1 cert_ok2 sign_ok entity_id,
+  (forall q i, decode = Some q -> aq_issuer q = Some i -> lookup1 i = lookup2 i) ->
+  (forall q n, decode = Some q -> aq_nameid q = Some n -> userinfo1 n = userinfo2 n) -> forall c,
+  attrquery_handler decode lookup1 verify_sig attr_locs userinfo1 cert_ok1 cert_ok2 sign_ok entity_id c =
+  attrquery_handler decode lookup2 verify_sig attr_locs userinfo2 cert_ok1 cert_ok2 sign_ok entity_id c.
+Proof. exact attrquery_local. Qed.
+
 Print Assumptions C15_isolation.
 Print Assumptions C15_non_interference.
 Print Assumptions C15_ids_distinct.
@@ -56,3 +71,5 @@ Print Assumptions C15_callback_program.
 Print Assumptions C15_concurrent_callbacks.
 Print Assumptions C15_callback_local.
 Print Assumptions C15_logout_local.
+Print Assumptions C15_sso_local.
+Print Assumptions C15_attrquery_local.
